@@ -4,6 +4,7 @@ CONSTANTS
   MaxRec = 2
   MaxEp = 1
   FetchMax = 1
+  WideEvery = 0
   SlowTimeouts = FALSE
   ZombieSteals = FALSE
   MaxTick = 0
